@@ -9,6 +9,7 @@ package c10
 import (
 	"bytes"
 	"fmt"
+	"github.com/refraction-networking/uquic/verif/refwire"
 	"sort"
 	"strings"
 	"testing"
@@ -30,6 +31,9 @@ type Case struct {
 	Dials    int          `json:"dials"`
 	Live     bool         `json:"live"` // additionally dial the in-tree server
 	InitSize int          `json:"initial_packet_size,omitempty"`
+	// LiveMode (live dial only): "" | "retry" (the server validates the address with a Retry first) | "vn" (the
+	// server only speaks QUIC v2: Version Negotiation, the dial continues on a re-created connection)
+	LiveMode string `json:"live_mode,omitempty"`
 }
 
 var (
@@ -41,6 +45,9 @@ func genCase(t *rapid.T) Case {
 	c := Case{Dials: 3, Live: rapid.IntRange(0, 3).Draw(t, "live") == 0}
 	c.Spec = specgen.Gen(t, specgen.Options{Bases: specgen.BaseNames(), CHLen: chlen, SuppressAny: true, BigPN: true})
 	c.InitSize = rapid.SampledFrom([]int{0, 0, 1200, 1252, 1280}).Draw(t, "initsize")
+	if c.Live {
+		c.LiveMode = rapid.SampledFrom([]string{"", "", "retry", "vn", "vn"}).Draw(t, "livemode")
+	}
 	return c
 }
 
@@ -120,14 +127,25 @@ func checkCase(c Case, u *vf.Unit) *vf.Verdict {
 		u.Class("first-pn-undecodable-by-design")
 	}
 	if c.Live && decodable {
-		f := specgen.CaptureLive(curT, spec, conf(), nil, false)
+		var f specgen.Flight
+		if c.LiveMode == "vn" {
+			f = specgen.CaptureLiveVN(curT, spec, conf(), nil)
+		} else {
+			f = specgen.CaptureLive(curT, spec, conf(), nil, c.LiveMode == "retry")
+		}
 		if f.DialErr != nil || !f.Handshake {
 			return vf.Bad("C10/live/server-rejects", "the in-tree server did not complete the handshake with this flight: dial error %v, accepted %v", f.DialErr, f.Handshake)
 		}
 		if v := checkFlight(c, spec, f, 99, &tokens, u, true); v != nil {
 			return v
 		}
+		if v := checkNumbering(c, spec, f, u); v != nil {
+			return v
+		}
 		u.Class("live")
+		if c.LiveMode != "" {
+			u.Class("live:" + c.LiveMode)
+		}
 	}
 	d := c.Spec
 	for _, b := range []bool{d.SrcCID != nil, d.DestCID != nil, d.InitPN != nil, d.PNLen != nil || len(d.PNLens) > 0, d.TokenMode != "", d.Builder != nil, len(d.Plans) > 0, d.UDPMin != nil, d.ExtraCH > 0} {
@@ -297,6 +315,76 @@ func checkFlight(c Case, spec *quic.QUICSpec, f specgen.Flight, dial int, tokens
 			return vf.Bad("C10/size/overshoot-initial-packet-size", "%s packet %d: datagram of %d bytes exceeds the connection's maximum packet size %d (spec asks for PacketSize %d, UDPDatagramMinSize %d)", where, i, sizes[i], initSize, plan.PacketSize, udpMin)
 		}
 		_ = dgs
+	}
+	return nil
+}
+
+// checkNumbering judges every Initial packet the client sent during a live dial, retransmissions and the packets
+// after a Retry or a Version Negotiation included. The encoding length of packet number InitPacketNumber+k is entry
+// min(k, last) of InitPacketNumberLengths ("Entry [0] applies to PN=InitPacketNumber, [1] to the next Initial packet,
+// etc. If the packet index exceeds the slice length, the last entry repeats", u_initial_packet_spec.go), or the single
+// InitPacketNumberLength; the connection re-created after Version Negotiation continues the numbering, so the index
+// is the distance from the spec's first number there too. Within one version the numbers go up by one; the first
+// packet of the dial carries the spec's first number. (On Version Negotiation the old connection also sends an Initial
+// packet with CONNECTION_CLOSE in the old version, whose number the new connection's first packet repeats, and the
+// closed-connection handler repeats that packet verbatim: CONNECTION_CLOSE packets are left out and the numbers of the
+// two versions are judged separately.)
+func checkNumbering(c Case, spec *quic.QUICSpec, f specgen.Flight, u *vf.Unit) *vf.Verdict {
+	ips := spec.InitialPacketSpec
+	firstPN := ips.InitPacketNumber
+	if firstPN > 1<<62-1 {
+		firstPN = 0
+	}
+	all, _, _ := initials(f, false)
+	var ps []*sim.Packet
+	for _, p := range all {
+		closing := false
+		for _, n := range p.Names {
+			if n == refwire.NameConnectionClose {
+				closing = true
+			}
+		}
+		// the CONNECTION_CLOSE packet of the connection given up on Version Negotiation (and its verbatim
+		// retransmissions by the closed-connection handler) is not part of the flight the spec describes
+		if !closing {
+			ps = append(ps, p)
+		}
+	}
+	last := map[uint32]uint64{}
+	retried := false
+	for i, p := range ps {
+		v := uint32(p.Version)
+		if i == 0 && p.PN != firstPN {
+			return vf.Bad("C10/header/packet-number", "live dial (%s): the first Initial packet of the dial has packet number %d, spec says %d", c.LiveMode, p.PN, firstPN)
+		}
+		if prev, ok := last[v]; ok && p.PN != prev+1 {
+			return vf.Bad("C10/header/packet-number", "live dial (%s): Initial packet %d of the dial (version %#x) has packet number %d, the previous one of this version had %d", c.LiveMode, i, p.Version, p.PN, prev)
+		}
+		if _, ok := last[v]; !ok && i > 0 && p.PN < firstPN+1 {
+			return vf.Bad("C10/header/packet-number", "live dial (%s): the first Initial packet in version %#x has packet number %d: the numbering did not continue from %d", c.LiveMode, p.Version, p.PN, firstPN)
+		}
+		last[v] = p.PN
+		if i > 0 && !bytes.Equal(p.Token, ps[0].Token) {
+			retried = true
+		}
+		wantLen := 0
+		if n := len(ips.InitPacketNumberLengths); n > 0 && p.PN >= firstPN {
+			wantLen = int(ips.InitPacketNumberLengths[min(p.PN-firstPN, uint64(n-1))])
+		} else if n == 0 && ips.InitPacketNumberLength != 0 {
+			wantLen = int(ips.InitPacketNumberLength)
+		}
+		if wantLen != 0 && p.PNLen != wantLen {
+			return vf.Bad("C10/header/packet-number-length", "live dial (%s): Initial packet %d of the dial (pn %d, version %#x): packet number encoded in %d bytes, spec says %d (lengths %v from packet number %d)", c.LiveMode, i, p.PN, p.Version, p.PNLen, wantLen, ips.InitPacketNumberLengths, firstPN)
+		}
+	}
+	if len(last) > 1 {
+		u.Class("initials-in-two-versions")
+	}
+	if retried {
+		u.Class("initials-after-retry")
+	}
+	if len(ps) > f.FirstBurst {
+		u.Class("initials-beyond-first-burst")
 	}
 	return nil
 }
